@@ -14,7 +14,7 @@ import (
 )
 
 func init() {
-	register(&Prop{ID: "C06", Module: "V.C06.Check", Gen: c06Gen, Quick: 600, Thorough: 15000, Shard: 40})
+	register(&Prop{ID: "C06", Module: "V.C06.Check", Gen: c06Gen, Quick: 520, Thorough: 15000, Shard: 40})
 }
 
 func c06OptStrs(ok bool, xs []string) string {
@@ -169,6 +169,58 @@ func c06NameProgram(r *Rng) c09Prog {
 	return c09Prog{Text: b.String(), Core: true, Class: "names"}
 }
 
+// programs about connection indexes: life cycles of parallel connections (declare, remove a non-last one
+// with an indexed null, declare again) at the root, inside containers and continued in boards that inherit
+// them (scenarios / steps) or start afresh (layers)
+func c06EdgeProgram(r *Rng) c09Prog {
+	g := &c09G{r: r, hostile: 0.1, files: map[string]string{}, feat: map[string]bool{}}
+	var b strings.Builder
+	var lives []*c09EdgeLife
+	n := r.Range(1, 2)
+	for i := 0; i < n; i++ {
+		l := g.newEdgeLife()
+		lives = append(lives, l)
+		l.declare(g, 0, r.Range(1, 4), &b)
+		l.steps(g, 0, r.Range(0, 5), &b)
+	}
+	var inner *c09EdgeLife
+	cn := g.name().Src
+	if r.Chance(0.6) {
+		inner = g.newEdgeLife()
+		fmt.Fprintf(&b, "%s: {\n", cn)
+		inner.declare(g, 1, r.Range(1, 3), &b)
+		inner.steps(g, 1, r.Range(1, 5), &b)
+		fmt.Fprintf(&b, "}\n")
+	}
+	if r.Chance(0.6) {
+		kind := r.Pick([]string{"scenarios", "steps", "layers"})
+		fmt.Fprintf(&b, "%s: {\n", kind)
+		nb := r.Range(1, 2)
+		for k := 0; k < nb; k++ {
+			fmt.Fprintf(&b, "  b%d: {\n", k)
+			for _, l := range lives {
+				c := &c09EdgeLife{s: l.s, a: l.a, t: l.t}
+				if kind != "layers" {
+					c.live = append([]int(nil), l.live...)
+				}
+				c.steps(g, 2, r.Range(1, 5), &b)
+				if kind == "steps" {
+					l.live = c.live // a step inherits from the previous step
+				}
+			}
+			if inner != nil && kind != "layers" && r.Chance(0.5) {
+				c := &c09EdgeLife{s: inner.s, a: inner.a, t: inner.t, live: append([]int(nil), inner.live...)}
+				fmt.Fprintf(&b, "    %s: {\n", cn)
+				c.steps(g, 3, r.Range(1, 4), &b)
+				fmt.Fprintf(&b, "    }\n")
+			}
+			fmt.Fprintf(&b, "  }\n")
+		}
+		fmt.Fprintf(&b, "}\n")
+	}
+	return c09Prog{Text: b.String(), Core: false, Class: "edge-index"}
+}
+
 var c06Corpus = []c09Prog{
 	{Text: "\"a.b\".c -> a.b.c\n"},
 	{Text: "\"Shape\".x; \"label\" -> \"3D\"\n"},
@@ -198,7 +250,9 @@ func c06Gen(r *Rng, tier string, n int) []Case {
 	seen := map[string]bool{}
 	for len(out) < n {
 		var p c09Prog
-		switch r.Intn(10) {
+		switch r.Intn(12) {
+		case 10, 11:
+			p = c06EdgeProgram(r.Fork())
 		case 0, 1, 2, 3:
 			p = c06NameProgram(r.Fork())
 		case 4, 5:
